@@ -19,7 +19,8 @@ have = set(re.findall(r'sig=(deep:\S+)', open(kf).read()))
 for sig, v in sorted(t.items()):
     if not v['first_crash'] or sig in have:
         continue
-    _, op, construct, stack = sig.split(':')
+    parts = sig.split(':')
+    op, construct, stack = parts[1], parts[2], parts[3] + (' (child built with the dev profile)' if len(parts) > 4 else '')
     safe = v['safe_up_to'] // 4
     print(f"known: property=C19 sig={sig} safe<={safe} {op} of a deeply nested `{construct}` expression exhausts a {stack} stack and aborts the process "
           f"(no depth limit anywhere; observed: completes at depth {v['safe_up_to']}, aborts at {v['first_crash']['depth']}); a crash at or below depth {safe} would be reported as new")
